@@ -384,7 +384,7 @@ def main():
     ws = [prepare_worker(k) for k in range(workers)]
     free = list(ws)
     results = []
-    out_path = os.path.join(V, "seeded", "mutation_campaign.json")
+    out_path = os.path.join(V, "seeded", os.environ.get("MC_OUT", "mutation_campaign.json"))
 
     def job(m):
         w = free.pop()
